@@ -1,7 +1,7 @@
 """Rules about the clone command's control flow (anchored on the function that wraps a file into CloneOutput)."""
 from ..facts import callee_q, succs
 from ..paths import Explorer
-from ..terms import Terms, simplify, has_call, has_field, show
+from ..terms import Terms, simplify, has_call, has_call_deep, has_field, show
 from ..callgraph import CallGraph
 from .r_steps import (GuardedStep, guard_from_bool_call, guard_block_device, origin_block_device, guard_from_bool_field, guard_from_option_field,
                       hash_compare_sites, exit_outcomes_from, OK_OUTCOMES)
@@ -33,7 +33,7 @@ def run(facts, cg=None):
         def is_resize(b_, bi, t):
             if 'q' in t['callee'] and callee_q(t) == SET_LEN:
                 arg = simplify(T.of_operand(b_, t['args'][1]))
-                return has_call(arg, 'Archive::total_source_size')
+                return has_call_deep(T, b_, arg, 'Archive::total_source_size')
             return False
         r = GuardedStep(b, is_resize, guard_block_device(T), bypass_value=True, origin=origin_block_device(T))
         Explorer(b, r).run()
